@@ -79,10 +79,13 @@ def run(ctx):
                 camp.sh.maybe_flush()
             ctx.sample({"leaf": leaf, "values": len(dom)})
         # 2. text and composite constructs of the core fragment, random values and inputs
-        nprog = 500 if quick else 6000
+        nprog = 400 if quick else 6000
+        from .. import universes as U
+        progs = [(p, rng.choice([{"k": 2}, {"k": 1}, {"k": 3}])) for p in U.systematic(rng, 0.3 if quick else 1.0)]
         for i in range(nprog):
             kw = rng.choice([{}, {}, {"k": 2}, {"k": 1, "w": 3}])
-            prog = gen.program(rng, rng.choice([1, 2, 2, 3]), kw)
+            progs.append((gen.program(rng, rng.choice([1, 2, 2, 3]), kw), kw))
+        for i, (prog, kw) in enumerate(progs):
             con = campaign.realizable(prog)
             if con is None:
                 continue
